@@ -50,7 +50,15 @@ impl<T: Qcow2IoOps> Qcow2Dev<T> {
     where
         F: FnOnce(&mut Qcow2Header),
     {
-        let buf = h.serialize_to_buf()?;
+        // the serialized header has an arbitrary length and lives in a plain
+        // Vec: write it from an aligned buffer padded to the block size (the
+        // header never exceeds one cluster and the rest of it is unused)
+        let vec = h.serialize_to_buf()?;
+        let bs = 1usize << self.info.block_size_shift;
+        let len = vec.len().div_ceil(bs) * bs;
+        let mut buf = crate::helpers::Qcow2IoBuf::<u8>::new(len);
+        buf.zero_buf();
+        buf[..vec.len()].copy_from_slice(&vec);
         if let Err(err) = self.call_write(0, &buf).await {
             rollback(h);
             return Err(err);
